@@ -9,6 +9,34 @@ using namespace hx;
 #ifndef MAXO
 #define MAXO 3
 #endif
+#ifndef HISTN
+#define HISTN 3
+#endif
+
+// the real operator() on s at x against the stored pieces of s (read through the public getters)
+template <size_t o>
+void check_eval(const std::string &k, const Spline<Real, o> &s, const std::vector<Real> &g, const Real &x, bool with_control) {
+  auto &E = Engine::get();
+  Real r = s(x);
+  size_t st = s.getSupport().getStartIndex(), en = s.getSupport().getEndIndex();
+  bool has_iv = en >= st + 2;
+  if (!has_iv) {
+    E.prove(k + "zero-without-intervals", sym::eq(r, Real(0)));
+  } else {
+    Bool outside = sym::lt(x, g[st]) || sym::gt(x, g[en - 1]);
+    Bool inside_ok = Bool::F();
+    for (size_t j = st; j + 1 < en; j++)
+      inside_ok = inside_ok || (sym::le(g[j], x) && sym::le(x, g[j + 1]) && sym::eq(r, piece_at(s, g, j, x)));
+    E.prove(k + "zero-outside-closed-support", sym::implies(outside, sym::eq(r, Real(0))));
+    E.prove(k + "value-of-containing-piece", sym::implies(!outside, inside_ok));
+    if (with_control) {
+      // negative control: a perturbed expected value must be refutable on this path
+      Bool wrong = Bool::F();
+      for (size_t j = st; j + 1 < en; j++) wrong = wrong || sym::eq(r, piece_at(s, g, j, x) + Real(1));
+      E.control("perturbed-value", sym::implies(!outside, wrong) && sym::implies(outside, sym::eq(r, Real(1))));
+    }
+  }
+}
 
 template <size_t o>
 void eval_case(size_t n, std::pair<size_t, size_t> w) {
@@ -17,25 +45,8 @@ void eval_case(size_t n, std::pair<size_t, size_t> w) {
   Grid<Real> grid(g);
   auto s = mkspline<o>(grid, w.first, w.second, "c");
   Real x = Real::var("x");
-  Real r = s(x);
   size_t st = w.first, en = w.second;
-  bool has_iv = en >= st + 2;
-  if (!has_iv) {
-    E.prove("zero-without-intervals", sym::eq(r, Real(0)));
-  } else {
-    Bool outside = sym::lt(x, g[st]) || sym::gt(x, g[en - 1]);
-    Bool inside_ok = Bool::F();
-    for (size_t j = st; j + 1 < en; j++)
-      inside_ok = inside_ok || (sym::le(g[j], x) && sym::le(x, g[j + 1]) && sym::eq(r, piece_at(s, g, j, x)));
-    E.prove("zero-outside-closed-support", sym::implies(outside, sym::eq(r, Real(0))));
-    E.prove("value-of-containing-piece", sym::implies(!outside, inside_ok));
-    if (stats().paths == 0) {
-      // negative control: a perturbed expected value must be refutable on this path
-      Bool wrong = Bool::F();
-      for (size_t j = st; j + 1 < en; j++) wrong = wrong || sym::eq(r, piece_at(s, g, j, x) + Real(1));
-      E.control("perturbed-value", sym::implies(!outside, wrong) && sym::implies(outside, sym::eq(r, Real(1))));
-    }
-  }
+  check_eval("", s, g, x, stats().paths == 0);
   // front / back
   if (en > st) {
     E.prove("front-is-first-point", sym::eq(s.front(), g[st]));
@@ -59,11 +70,46 @@ void eval_case(size_t n, std::pair<size_t, size_t> w) {
   }
 }
 
+// evaluation of an object with a history: an earlier evaluation at an independent symbolic x1, then (optionally) an
+// in-place change of the object, then the evaluation under test
+template <size_t o>
+void history_case(size_t n, std::pair<size_t, size_t> w, std::pair<size_t, size_t> wt, int kind) {
+  auto g = gridvars(n);
+  Grid<Real> grid(g);
+  auto s = mkspline<o>(grid, w.first, w.second, "c");
+  auto t = mkspline<o>(grid, wt.first, wt.second, "t");
+  Real x1 = Real::var("x1"), x = Real::var("x");
+  (void)s(x1);
+  (void)t(x1);
+  std::string k = "history" + std::to_string(kind) + "/";
+  switch (kind) {
+    case 0: break;                       // second evaluation of the same object
+    case 1: s = t; break;                // copy assignment from another window
+    case 2: s = std::move(t); break;     // move assignment
+    case 3: s += t; break;               // in-place arithmetic changes the window
+    case 4:
+      if constexpr (o > 0) {
+        auto low = mkspline<o - 1>(grid, wt.first, wt.second, "l");
+        s = low;                         // lower-order assignment
+      }
+      break;
+    case 5: { Spline<Real, o> u(std::move(s)); s = t; (void)u(x1); } break;  // moved-from, then reassigned
+  }
+  check_eval(k, s, g, x, false);
+}
+
 template <size_t o>
 void add(std::vector<Case> &cases) {
   for (size_t n = 2; n <= MAXN; n++)
     for (auto w : windows(n))
       cases.push_back({"eval/o" + std::to_string(o) + "/n" + std::to_string(n) + "/w" + W(w), [=] { eval_case<o>(n, w); }});
+  for (size_t n = 2; n <= HISTN; n++)
+    for (auto w : windows(n))
+      for (auto wt : windows(n, false))
+        for (int kind = 0; kind < 6; kind++) {
+          if (kind == 0 && wt != windows(n, false)[0]) continue;
+          cases.push_back({"eval-history/o" + std::to_string(o) + "/n" + std::to_string(n) + "/w" + W(w) + "/wt" + W(wt) + "/k" + std::to_string(kind), [=] { history_case<o>(n, w, wt, kind); }});
+        }
   if constexpr (o > 0) add<o - 1>(cases);
 }
 void hx_cases(std::vector<Case> &cases) { add<MAXO>(cases); }
